@@ -100,6 +100,21 @@ CLAIMS['C11'] = ('other',
     'the empty string. "For any input text" reduces to PLY driving these rules, which is trusted, hence level other.',
     'Trusted: PLY lexer/yacc drivers, re (the z3 translation of the token regexes agrees with re on the subset used), '
     're.findall line-terminator count.', '5 C11')
+CLAIMS['C17'] = ('other',
+    'Lockstep lemma over the LR tables PLY builds from the real parser classes: for a pair of option sets S <= L, '
+    'the set of reachable state pairs is closed and every pair agrees on shift / matching reduce / accept for every '
+    'look-ahead of S (weak simulation with the silent reductions the relaxations introduce), so every token sequence '
+    'of any length accepted under S is accepted under L with matching reductions; matched reductions are the same '
+    'function or have the same expected tree, which the grammar-action contracts prove of each function; the lexers '
+    'share their rule functions and classify every word alike except those L newly reserves; parserFactory / '
+    'lexerFactory are verified on every subset of the nine options (members = those of the documented relaxation '
+    'classes, unknown option asked for -> PySmiError). The lemma is a table computation (decided exactly, not by '
+    'the SMT solver) and PLY is trusted to run the tables, hence level other.',
+    'quick: the three shipped dialects, every buildable single option against SMIv2 and against smiV1Relaxed, six '
+    'seeded random subset pairs; thorough: every buildable subset against each one-option extension (all superset '
+    'pairs follow by transitivity). Option sets from which PLY cannot build a parser (supportIndex without '
+    'supportSmiV1Keywords) are outside the quantifier and reported as skipped. Trusted: PLY table construction and '
+    'LR driver (the tables are read from the parser object it built).', '5 C17')
 NOT_YET = {
 }
 
